@@ -1,1 +1,177 @@
 // Kani contract harnesses for /repo/parquet-variant/src/utils.rs (child module: sees private items via super::)
+use super::*;
+#[path = "/verif/kani/support/spec.rs"]
+mod spec;
+use spec::*;
+
+fn any_input<const N: usize>() -> ([u8; N], usize) {
+    let a: [u8; N] = kani::any();
+    let n: usize = kani::any();
+    kani::assume(n <= N);
+    (a, n)
+}
+
+fn stub_basic_from_utf8(input: &[u8]) -> Result<&str, simdutf8::basic::Utf8Error> {
+    if kani::any() {
+        Ok(unsafe { core::str::from_utf8_unchecked(input) })
+    } else {
+        Err(simdutf8::basic::Utf8Error {})
+    }
+}
+fn stub_compat_from_utf8(_input: &[u8]) -> Result<&str, simdutf8::compat::Utf8Error> {
+    Err(unsafe { core::mem::zeroed::<simdutf8::compat::Utf8Error>() })
+}
+
+// Contract (C08): the checked slicing helpers on arbitrary bytes (<= 20) and ARBITRARY usize indices:
+//  slice_from_slice(b, s..e)            Ok(sub) iff s <= e <= len; sub is b[s..e] itself (same memory)
+//  slice_from_slice(b, s..)             Ok iff s <= len
+//  slice_from_slice_at_offset(b,o,s..e) Ok iff o+s and o+e do not overflow and o+s <= o+e <= len
+//  array_from_slice::<4>(b, o)          Ok(arr) iff o + 4 <= len (no overflow); arr = the 4 bytes at o
+//  first_byte_from_slice(b)             Ok(b[0]) iff len >= 1
+// Err otherwise; never a panic, never a wrap-around.
+// Stub: alloc::fmt::format.
+// @unit name=variant_slice_helpers props=C08 kind=bounded bound=bytes<=20 fns=slice_from_slice,slice_from_slice_at_offset,array_from_slice,first_byte_from_slice,overflow_error tier=quick timeout=480 mem=3
+#[kani::proof]
+#[kani::unwind(6)]
+#[kani::stub(alloc::fmt::format, stub_format)]
+fn variant_slice_helpers() {
+    let (a, n) = any_input::<20>();
+    let b = &a[..n];
+    let s: usize = kani::any();
+    let e: usize = kani::any();
+    let o: usize = kani::any();
+    match kani::any::<u8>() {
+        0 => {
+            let r = slice_from_slice(b, s..e);
+            assert!(r.is_ok() == (s <= e && e <= n));
+            if let Ok(sub) = &r {
+                assert!(sub.len() == e - s && sub.as_ptr() == a[s..].as_ptr());
+            }
+            kani::cover!(r.is_ok() && s == e && e == n);
+            kani::cover!(r.is_err() && s > e && e <= n);
+            std::mem::forget(r);
+        }
+        1 => {
+            let r = slice_from_slice(b, s..);
+            assert!(r.is_ok() == (s <= n));
+            if let Ok(sub) = &r {
+                assert!(sub.len() == n - s && sub.as_ptr() == a[s..].as_ptr());
+            }
+            kani::cover!(r.is_ok() && s == n);
+            kani::cover!(r.is_err());
+            std::mem::forget(r);
+        }
+        2 => {
+            let r = slice_from_slice_at_offset(b, o, s..e);
+            let st = o as u128 + s as u128;
+            let en = o as u128 + e as u128;
+            let fits = st <= en && en <= n as u128;
+            assert!(r.is_ok() == fits);
+            if let Ok(sub) = &r {
+                assert!(sub.len() as u128 == en - st && sub.as_ptr() == a[st as usize..].as_ptr());
+            }
+            kani::cover!(r.is_ok() && o == 4 && e == 16);
+            kani::cover!(r.is_err() && o == usize::MAX && s == 1);
+            kani::cover!(r.is_err() && en == n as u128 + 1);
+            std::mem::forget(r);
+        }
+        3 => {
+            let r = array_from_slice::<4>(b, o);
+            let fits = o as u128 + 4 <= n as u128;
+            assert!(r.is_ok() == fits);
+            if let Ok(arr) = &r {
+                let i: usize = kani::any();
+                kani::assume(i < 4);
+                assert!(arr[i] == a[o + i]);
+            }
+            kani::cover!(r.is_ok() && o == 16);
+            kani::cover!(r.is_err() && o == usize::MAX - 2);
+            std::mem::forget(r);
+        }
+        _ => {
+            let r = first_byte_from_slice(b);
+            assert!(r.is_ok() == (n >= 1));
+            if let Ok(x) = &r {
+                assert!(*x == a[0]);
+            }
+            kani::cover!(r.is_err());
+            std::mem::forget(r);
+        }
+    }
+}
+
+// Contract (C08): string_from_slice(b, o, s..e): out-of-bounds or overflowing indices => Err whatever the
+// bytes are; Ok(str) => the indices are in bounds and str is b[o+s .. o+e] itself (same memory).
+// Stubs: alloc::fmt::format; simdutf8::{basic,compat}::from_utf8 by a nondeterministic validator.
+// @unit name=variant_string_from_slice props=C08 kind=bounded bound=bytes<=20 fns=string_from_slice tier=quick timeout=480 mem=3
+#[kani::proof]
+#[kani::unwind(6)]
+#[kani::stub(alloc::fmt::format, stub_format)]
+#[kani::stub(simdutf8::basic::from_utf8, stub_basic_from_utf8)]
+#[kani::stub(simdutf8::compat::from_utf8, stub_compat_from_utf8)]
+fn variant_string_from_slice() {
+    let (a, n) = any_input::<20>();
+    let s: usize = kani::any();
+    let e: usize = kani::any();
+    let o: usize = kani::any();
+    let r = string_from_slice(&a[..n], o, s..e);
+    let st = o as u128 + s as u128;
+    let en = o as u128 + e as u128;
+    let fits = st <= en && en <= n as u128;
+    if let Ok(t) = &r {
+        assert!(fits);
+        assert!(t.len() as u128 == en - st && t.as_ptr() == a[st as usize..].as_ptr());
+    }
+    assert!(fits || r.is_err());
+    kani::cover!(r.is_ok() && en - st == 20);
+    kani::cover!(r.is_err() && fits);
+    kani::cover!(r.is_err() && !fits && e < s);
+    std::mem::forget(r);
+}
+
+// Contract (C08): try_binary_search_range_by over a sorted table of <= 7 keys (the shape used for
+// object field lookup), with a key extractor that may FAIL at a solver-chosen index:
+//  None           => the extractor failed on some probed index;
+//  Some(Ok(i))    => i is in the range and key[i] == target;
+//  Some(Err(i))   => target does not occur in the range and i is its insertion point
+//                    (every key before i is smaller, every key from i on is larger);
+// never panics, never probes outside the range, terminates within ceil(log2(len))+1 probes.
+// @unit name=variant_binary_search props=C08 kind=bounded bound=table<=7_keys fns=try_binary_search_range_by tier=quick timeout=480 mem=3
+#[kani::proof]
+#[kani::unwind(9)]
+fn variant_binary_search() {
+    let keys: [u8; 7] = kani::any();
+    let lo: usize = kani::any();
+    let hi: usize = kani::any();
+    kani::assume(lo <= hi && hi <= 7);
+    // sorted, strictly increasing inside the range
+    let mut i = 0;
+    while i + 1 < 7 {
+        kani::assume(i < lo || i + 1 >= hi || keys[i] < keys[i + 1]);
+        i += 1;
+    }
+    let target: u8 = kani::any();
+    let bad: usize = kani::any(); // index at which key extraction fails (may be outside the range: never fails)
+    let r = try_binary_search_range_by(lo..hi, |k| {
+        assert!(k >= lo && k < hi);
+        if k == bad { None } else { Some(keys[k].cmp(&target)) }
+    });
+    let w: usize = kani::any(); // witness index
+    kani::assume(w >= lo && w < hi);
+    match r {
+        None => assert!(bad >= lo && bad < hi),
+        Some(Ok(i)) => assert!(i >= lo && i < hi && keys[i] == target),
+        Some(Err(i)) => {
+            assert!(i >= lo && i <= hi);
+            if bad < lo || bad >= hi {
+                assert!(keys[w] != target);
+                assert!((w < i) == (keys[w] < target));
+            }
+        }
+    }
+    kani::cover!(matches!(r, Some(Ok(6))) && lo == 0);
+    kani::cover!(matches!(r, Some(Err(0))) && hi == 7 && lo == 0);
+    kani::cover!(matches!(r, Some(Err(7))));
+    kani::cover!(r.is_none());
+    kani::cover!(lo == hi);
+}
